@@ -1693,7 +1693,21 @@ class Exec:
         return res
 
     def ev_Await(self, e, st):
-        return self.ev(e.value, st, awaited=True)
+        if isinstance(e.value, ast.Call):
+            return self.ev(e.value, st, awaited=True)
+        # `await <object>`: an awaitable the package did not create (the coroutine object a Job was given).
+        # Environment contract `$await`: it suspends, returns some object or raises some exception
+        from .calls import run_contract
+        c = self.reg.get('$await')
+        if c is None:
+            raise Unsupported('await of a non-call expression (line %d)' % e.lineno)
+        res = []
+        for st2, v in self.ev(e.value, st):
+            if isinstance(v, Raised):
+                res.append((st2, v))
+                continue
+            res.extend(run_contract(self, c, {'obj': self.to_ref(v)}, st2, e))
+        return res
 
     def ev_SetComp(self, e, st):
         return self.comprehension(e, st, 'set')
